@@ -5,6 +5,10 @@ impl<T: Copy> Cell<T> {
     pub fn get(&self) -> (r: T) ensures r == self.v { self.v }
     pub fn set(&mut self, x: T) ensures final(self).v == x { self.v = x; }
 }
+impl<T: Copy> Cell<Option<T>> {
+    /// Cell::take: the value is replaced by the default (None)
+    pub fn take(&mut self) -> (r: Option<T>) ensures r == old(self).v, final(self).v == None::<T> { let x = self.v; self.v = None; x }
+}
 pub struct RefCell<T> { pub v: T }
 impl<T> RefCell<T> {
     pub fn borrow(&self) -> (r: &T) ensures *r == self.v { &self.v }
